@@ -72,6 +72,10 @@ class Interp:
         self.flags = set()
         self.req_kinds = set()
         self.all_acts = []
+        self.cb_ctx = []            # callbacks whose script is running
+        self.carry = {}             # inst -> events still queued in it
+        self.unsure = set()         # instances whose queue is not modelled
+        self.onquit_cut = False
         self.fired = set()
         self.total_requests = 0
 
@@ -105,6 +109,9 @@ class Interp:
             e = Crash('clock')
             self.crash_obj = e
             raise e
+        # the clock's script runs inside the time function *before* the
+        # reading is returned: if it raises, no reading happened
+        self.run_script(f'{self.frame + 1}:clock', None)
         inc = self.incs[self.nread % len(self.incs)]
         self.now = self.now + inc
         self.nread += 1
@@ -119,7 +126,6 @@ class Interp:
             self.probes['jump_reading'] += 1
         if isinstance(self.now, Fraction):
             self.probes['fraction_clock'] += 1
-        self.run_script(f'{self.frame}:clock', None)
         return self.now
 
     # ---- world population (transform function of every handle)
@@ -223,8 +229,13 @@ class Interp:
         if ev == 'on_update':
             self.check_running(inst, f'{actor}.on_update')
         self.ev.append(('cb', inst, actor, ev, info, self.frame))
-        if ev in ('on_update', 'on_switch_in', 'on_world_load'):
-            self.run_script(f'{self.frame}:H{inst[0]}.{actor}.{ev}', inst)
+        if ev in ('on_update', 'on_switch_in', 'on_world_load', 'probe',
+                  'on_quit'):
+            self.cb_ctx.append((inst, ev, info))
+            try:
+                self.run_script(f'{self.frame}:H{inst[0]}.{actor}.{ev}', inst)
+            finally:
+                self.cb_ctx.pop()
 
     def run_script(self, key, inst):
         self.all_acts.append(key)
@@ -247,6 +258,17 @@ class Interp:
             # that delivery short (C04: half delivered event)
             if key.endswith(('on_switch_in', 'on_world_load')) and n0:
                 self.requests[n0 - 1]['cut'] = True
+            if key.endswith('.on_quit'):
+                self.onquit_cut = True
+            if key.endswith('.probe') and n0 and self.cb_ctx:
+                # a held event's callback raised while its world was being
+                # entered: the rest of that world's queue stays queued
+                inst_, ev_, info_ = self.cb_ctx[-1]
+                last = self.requests[n0 - 1]
+                if last['y'] == inst_ and info_ and info_[0] in (
+                        last.get('exp_held') or last['held']):
+                    last['cut'] = True
+                    last['cut_token'] = info_[0]
             raise
 
     def fail(self, props, kind, detail=''):
@@ -389,6 +411,7 @@ class Interp:
             tw = self.world_of[tinst]
         want = sorted(self.listeners(tinst, 'on_quit'))
         start = len(self.ev)
+        self.onquit_cut = False
         self.faults['quit_loop'] += 1
         self.ended_by = 'quit'
         self.snap_current()
@@ -401,7 +424,10 @@ class Interp:
                          and e[1] == tinst)
             other = [e for e in self.ev[start:] if e[0] == 'cb'
                      and e[3] == 'on_quit' and e[1] != tinst]
-            if got != want or other:
+            if self.onquit_cut and got and set(got) <= set(want) \
+                    and len(set(got)) == len(got) and not other:
+                self.probes['on_quit_cut_by_raising_listener'] += 1
+            elif got != want or other:
                 self.fail('C14', 'on_quit_count', f'quit_loop({target}): '
                           f'on_quit delivered to {got} in {tinst} (+{other})'
                           f', expected {want}')
@@ -562,7 +588,7 @@ class Interp:
                               f'{expected.get(frame)!r}')
         scripts = self.sc.get('scripts', {})
         for frame in clocks:
-            if ticks[frame] != 1 and f'{frame}:clock' not in scripts:
+            if ticks[frame] != 1:
                 self.fail('C14', 'process_per_reading', f'frame {frame}: '
                           f'process() of the current world was called '
                           f'{ticks[frame]} times for one clock reading')
@@ -593,37 +619,65 @@ class Interp:
                       f'on_world_load before on_add: {names}')
         self.fresh.discard(y)
         ins = [i for i, n in enumerate(names) if n[0] == 'on_switch_in']
-        want_in = sorted(self.listeners(y, 'on_switch_in')) if rec and \
-            rec['via'] == 'switch' else []
-        got_in = sorted(names[i][1] for i in ins)
-        if cut and got_in and set(got_in) <= set(want_in) and len(
-                set(got_in)) == len(got_in):
-            # a callback of this very delivery asked for another switch:
-            # the exception cuts the delivery short (C04: half delivered)
-            self.probes['entry_cut_by_chained_switch'] += 1
-        elif got_in != want_in:
-            kind = 'in_count'
-            self.fail('C13', kind, f'entering {y} (request {rec}): '
-                      f'on_switch_in delivered to {got_in}, expected '
-                      f'{want_in}')
-        if ins and (adds or loads) and min(ins) < max(adds + loads):
-            self.fail('C13', 'in_before_load_callbacks', f'entering {y}: '
-                      f'on_switch_in before the pending load-time '
-                      f'callbacks: {names}')
-        for i in ins:
-            info = life[i][4]
-            if info != (rec['from'], y):
-                self.fail('C13', 'args', f'on_switch_in in {y} got '
-                          f'{info}, expected ({rec["from"]}, {y})')
-        # held probe events: once each, in order, per listener
+        # events still queued in y from an entry that was cut short
+        carry = self.carry.pop(y, None) if rec is not None else None
+        held = (carry['held'] if carry else []) + list(held)
+        in_args = list(carry['ins']) if carry else []
+        if rec and rec['via'] == 'switch':
+            in_args.append((rec['from'], y))
+        if rec is not None:
+            rec['exp_held'] = held
+        lst = sorted(self.listeners(y, 'on_switch_in'))
+        want_in = sorted((lab, a) for lab in lst for a in in_args)
+        got_in = sorted((names[i][1], life[i][4]) for i in ins)
+        cut_token = rec.get('cut_token') if (rec and cut) else None
         pl = self.listeners(y, 'probe')
-        for lab in pl:
-            got = [e[4][0] for e in life if e[3] == 'probe' and e[2] == lab
-                   and e[4][0] in held]
-            if got != list(held) and not cut:
-                self.fail('C13', 'held_events_lost', f'entering {y}: probe '
-                          f'events held while muted {held}, listener {lab} '
-                          f'received {got}')
+        if y in self.unsure:
+            pass
+        elif cut_token is not None:
+            # the callback of a held event raised: the events behind it
+            # (and on_switch_in, always last) are still queued in y
+            k = held.index(cut_token)
+            for lab in pl:
+                got = [e[4][0] for e in life if e[3] == 'probe'
+                       and e[2] == lab and e[4][0] in held]
+                if got not in (held[:k], held[:k + 1]):
+                    self.fail('C13', 'held_events_lost', f'entering {y}: '
+                              f'held events {held}, delivery cut at '
+                              f'{cut_token}, listener {lab} received {got}')
+            if got_in:
+                self.fail('C13', 'in_count', f'entering {y}: on_switch_in '
+                          f'delivered before the held events in front of it')
+            self.carry[y] = {'held': held[k + 1:], 'ins': in_args}
+            self.probes['entry_cut_by_held_event_callback'] += 1
+        else:
+            if cut and got_in and all(g in want_in for g in got_in) and len(
+                    set(got_in)) == len(got_in):
+                # a callback of this very delivery asked for another
+                # switch / raised: the exception cuts the delivery short
+                # (C04: half delivered event)
+                self.probes['entry_cut_by_chained_switch'] += 1
+                if len(in_args) >= 2:
+                    self.unsure.add(y)  # a second on_switch_in stays queued
+            elif got_in != want_in:
+                self.fail('C13', 'in_count' if sorted(g[0] for g in got_in)
+                          != sorted(w[0] for w in want_in) else 'args',
+                          f'entering {y} (request {rec}): on_switch_in '
+                          f'delivered {got_in}, expected {want_in}')
+            if ins and (adds or loads) and min(ins) < max(adds + loads):
+                self.fail('C13', 'in_before_load_callbacks', f'entering '
+                          f'{y}: on_switch_in before the pending load-time '
+                          f'callbacks: {names}')
+            # held probe events: once each, in order, per listener
+            for lab in pl:
+                got = [e[4][0] for e in life if e[3] == 'probe'
+                       and e[2] == lab and e[4][0] in held]
+                if got != list(held) and not cut:
+                    self.fail('C13', 'held_events_lost', f'entering {y}: '
+                              f'probe events held while muted {held}, '
+                              f'listener {lab} received {got}')
+            if carry:
+                self.probes['carried_events_released'] += 1
         if held and pl:
             self.probes['held_events_released'] += 1
         n_in = len(ins)
@@ -782,6 +836,15 @@ def gen_script(prop, rng, cfg, key, state):
     actor = key.split(':', 1)[1]
     special = actor == 'clock' or actor.endswith('on_world_load') \
         or actor.endswith('on_switch_in')
+    if actor.endswith('.on_quit'):
+        return [rng.choice([['quit'], ['quit'], ['boom']])]
+    if actor.endswith('.probe'):
+        r2 = rng.random()
+        if r2 < .55:
+            return [['raise_switch', rng.randrange(nw), False, False]]
+        if r2 < .75:
+            return [['switch', rng.randrange(nw), False, False, 'default']]
+        return [rng.choice([['quit'], ['boom']])]
     r = rng.random()
     ops = []
     if rng.random() < .35:
@@ -857,6 +920,8 @@ def generate(prop, run_seed, tier='quick', tolerate=frozenset()):
                   for _ in range(3)]
     for key, term in combos:
         v = copy.deepcopy(sc)
+        if key.endswith('.on_quit') and term[0] == 'quit_loop':
+            term = ['quit']             # no quit_loop from inside on_quit
         v['scripts'][key] = [list(term)]
         if not any(op[0] == 'run' for op in v['ops'][2:]):
             v['ops'].append(['run', 3, 'quit'])
@@ -943,10 +1008,13 @@ PROBES = {
             'requester.proc_first', 'requester.proc', 'requester.on_update',
             'requester.coroutine', 'requester.on_switch_in',
             'reenter_muted_world_with_pending', 'direct_raise',
-            'probe_on_muted_world', 'held_events_released'],
+            'probe_on_muted_world', 'held_events_released',
+            'entry_cut_by_held_event_callback', 'carried_events_released',
+            'entry_cut_by_chained_switch'],
     'C14': ['quit_from.proc_first', 'quit_from.proc', 'quit_from.on_update',
             'quit_from.coroutine', 'quit_from.clock', 'boom_from.proc',
             'restart_count>=2', 'zero_delta_reading', 'jump_reading',
             'fraction_clock', 'dt_across_switch_checked', 'on_quit_checked',
-            'quit_checked', 'boom_then_restart_possible'],
+            'quit_checked', 'boom_then_restart_possible',
+            'on_quit_cut_by_raising_listener'],
 }
